@@ -821,6 +821,18 @@ def special_histories(author, rng):
         e["args"] = [(a, (sw if v["k"] == "sw" else v)) for a, v in e["args"]]
         t["acts"].append(e)
     out.append(("many new switches", [{"op": "addtrigs", "trigs": [t]}], "multi", False))
+    # equal unit-property sets carrying DIFFERENT free slot numbers (sets taken from another map): every
+    # reference must end on a slot that holds the set, or the save raises
+    used_slots = {c["idx"] for c in author._existing_cuwps()}
+    free_slots = [i for i in range(1, 65) if i not in used_slots]
+    if len(free_slots) >= 3:
+        acts = []
+        for k in free_slots[1:3]:
+            cu = Obj(k="cuwp", hp=61, sp=62, ep=63, res=6400, hangar=0, flags=[False] * 5, unk=False, vs=[True] * 5 + [False], vu=[True] * 6 + [False], padding=0, idx=k)
+            e = author.entry("a", 11)
+            e["args"] = [(a, (cu if v["k"] == "cuwp" else v)) for a, v in e["args"]]
+            acts.append(e)
+        out.append(("equal unit-property sets carrying different free slot numbers", [{"op": "addtrigs", "trigs": [{"conds": [], "acts": acts, "players": [3]}]}], "multi", True))
     # the same trigger added three times (hyper triggers): all three must be in the file
     t = author.trigger(nc=1, na=3, raw_p=0)
     out.append(("three identical triggers in one call", [{"op": "addtrigs", "trigs": [t, t, t]}], "single", False))
